@@ -580,6 +580,32 @@ class _Scan:
         self.desc = desc
 
 
+def loop_locals(fn, ordinal=0):
+    """names bound inside the `ordinal`-th while loop of fn's real source (comprehension / lambda / nested def scopes excluded)"""
+    import textwrap
+    tree = ast.parse(textwrap.dedent(inspect.getsource(fn)))
+    loops = [n for n in ast.walk(tree.body[0]) if isinstance(n, ast.While)]
+    if len(loops) <= ordinal:
+        raise Unsupported(f"{fn.__qualname__} has no while loop #{ordinal}")
+    names = set()
+
+    def walk(n):
+        if isinstance(n, (ast.ListComp, ast.SetComp, ast.DictComp, ast.GeneratorExp, ast.Lambda, ast.FunctionDef, ast.AsyncFunctionDef, ast.ClassDef)):
+            # their targets live in a scope of their own; a walrus inside would leak, handle it
+            for sub in ast.walk(n):
+                if isinstance(sub, ast.NamedExpr) and isinstance(sub.target, ast.Name):
+                    names.add(sub.target.id)
+            return
+        if isinstance(n, ast.Name) and isinstance(n.ctx, (ast.Store, ast.Del)):
+            names.add(n.id)
+        for c in ast.iter_child_nodes(n):
+            walk(c)
+
+    for stmt in loops[ordinal].body + loops[ordinal].orelse:
+        walk(stmt)
+    return sorted(names)
+
+
 class ParseSignature(VC):
     """Parser.parse_signature over an arbitrary token stream (unbounded number of parameters).
 
@@ -726,7 +752,13 @@ class ParseSignature(VC):
                 st.heap[r.id] = HList(arr=z3.Const(fresh_name(f + "_arr"), z3.ArraySort(I_s, Obj)), n=z3.Int(fresh_name(f + "_n")), k="obj")
             st.get(c.stream).fields["pos"] = fresh("pos", "int")
 
-        I.loops[("Parser.parse_signature", 0)] = LoopSpec(inv, havoc={"arg": "obj"}, heap=heap, name="signature_loop")
+        # the invariant only talks about node.args / node.defaults (heap) and the ghost; every local the loop body binds
+        # (read off the real AST, so that a new temporary in the body is a harmless edit) is havoced as an arbitrary value
+        I.loops[("Parser.parse_signature", 0)] = LoopSpec(inv, havoc={nm: "obj" for nm in loop_locals(P.Parser.parse_signature)}, heap=heap,
+                                                          name="signature_loop")
+        # unicodedata.normalize: an opaque pure function of its arguments (only used to compare names for the duplicate check)
+        import unicodedata
+        I.specs[("fn", id(unicodedata.normalize))] = A.abstract_fn("unicodedata.normalize", returns="str")
 
     def aligned(self, st, loop_head=False):
         """args = param[0..n), defaults = [dexpr(i) | has_default(i)] = dexpr[n-d..n), has_default(i) <=> i >= n-d"""
